@@ -165,3 +165,56 @@ func H05Filter() {
 	}
 	vndAssert(match("/gomaxprocs:4") == (wantG == "4"), "filter-gomaxprocs")
 }
+
+// H05History: one projection is applied to a Result whose Name buffer is
+// overwritten in place (as a Reader does); the second extraction must follow
+// the second name.
+func H05History() {
+	n := vndParam("len")
+	t := h05Templates[vndParam("tmpl")]
+	n1 := append([]byte(t), vndBytes("name1", n)...)
+	n2 := append([]byte(t), vndBytes("name2", n)...)
+	var pp ProjectionParser
+	proj, err := pp.Parse("/k,/gomaxprocs,.name", nil)
+	if err != nil {
+		panic(err)
+	}
+	f, err := NewFilter("/k:v")
+	if err != nil {
+		panic(err)
+	}
+	res := &benchfmt.Result{Name: benchfmt.Name(append([]byte(nil), n1...)), Iters: 1}
+	res.Values = []benchfmt.Value{{Value: 1, Unit: "ns/op"}}
+	fs := proj.Fields()
+	check := func(raw []byte, label string) {
+		baseEnd, segs, gmp := h05Ref(raw)
+		wantK := ""
+		for _, s := range segs {
+			if h05HasPrefix(raw[s[0]:s[1]], "/k=") {
+				wantK = string(raw[s[0]+3 : s[1]])
+				break
+			}
+		}
+		wantG := ""
+		if gmp >= 0 {
+			wantG = string(raw[gmp+1:])
+		} else {
+			for _, s := range segs {
+				if h05HasPrefix(raw[s[0]:s[1]], "/gomaxprocs=") {
+					wantG = string(raw[s[0]+12 : s[1]])
+					break
+				}
+			}
+		}
+		key := proj.Project(res)
+		vndAssert(key.Get(fs[0]) == wantK, label+"-subname-key")
+		vndAssert(key.Get(fs[1]) == wantG, label+"-gomaxprocs-key")
+		vndAssert(key.Get(fs[2]) == string(raw[:baseEnd]), label+"-name-key")
+		m, _ := f.Match(res)
+		vndAssert(m.All() == (wantK == "v"), label+"-filter-subkey")
+	}
+	check(n1, "first")
+	copy(res.Name, n2) // same length: the buffer is reused in place
+	vndReach("h05h:second")
+	check(n2, "second-after-in-place-rename")
+}
